@@ -33,7 +33,7 @@ m = {
     'version': 1,
     'setup_cmd': './setup.sh',
     'hooks': {'guard': 'verif', 'enable': 'go build -tags verif (harness module /verif/harness, replace github.com/rhysd/actionlint => /repo)',
-              'baseline_off_cmd': '/verif/tools/baseline.sh', 'source_commits': HOOK_COMMITS, 'add_only': True},
+              'baseline_off_cmd': '/verif/tools/baseline.sh', 'source_commits': HOOK_COMMITS, 'add_only': False},
     'engines': [{'name': 'coq-proof+correspondence', 'path': '/verif/check', 'serves_properties': [c['property_id'] for c in checks],
                  'kind_free_text': 'Coq 8.16 theorems over hand-written Gallina models (coq/), tied to /repo by a correspondence check (Go harness built from the working tree with -tags verif; the model evaluated by vm_compute on the same inputs) and by data tables regenerated from /repo (coq/Gen)'}],
     'checks': checks,
